@@ -130,7 +130,7 @@ def rule_patterns(ctx: Ctx, data):
              and not single_position_wide_atoms({"regex": "a[^bx]*c\\S+", "flags": 0}),
              "single_position_wide_atoms self-check failed on the fixture pattern")
     # convert_regex handles `c?` for multi-byte c
-    cr = next((n for n in walk_local(db) if isinstance(n, ast.FunctionDef) and n.name == "convert_regex"), None)
+    cr = ctx.repo.hyperscan_converter()
     okc = cr is not None and any(isinstance(n, ast.Call) and dotted(n.func) == "re.sub" and "(?:\\\\1)?" in norm(n) for n in walk_local(cr))
     ctx.ob("R-C14-3", "tokenizers.HyperscanTokenizer.hyperscan_db.convert_regex/optional-multibyte", bool(okc),
            "`c?` for a multi-byte c is rewritten to `(?:c)?` before compiling", node=cr or db, mod=tm)
